@@ -274,10 +274,14 @@ func init() {
 			What:   "NewConfig/generateImplicitTrafficPattern over every valid TrafficPattern (each optional field independently nil or any admitted value): explicit fields identical in Effective(), all implicit fields generated, Validate(Effective()) == nil, NONCE_TYPE_FIXED never generated, deterministic on a second derivation, invalid patterns rejected",
 			Bounds: "customHexStrings empty; rng.FixedInt an uninterpreted function of (n, hint); proto.Clone = deep copy", Outside: "Encode/Decode (protobuf + base64 reflection code); hex prefixes"},
 	)
+	c19P := []SrcPatch{
+		{File: "pkg/metrics/counter.go", Old: "time.Now()", New: "vNow()", All: true},
+		{File: "pkg/metrics/counter.go", Old: "time.Since(", New: "vSince(", All: true},
+	}
 	reg("C19",
-		HarnessDef{ID: "H19.1q", Spec: HarnessSpec{Name: "vH_C19_rollup_total2", Pkg: "pkg/metrics", LoopBound: 6, TimeoutS: 240, Par: 4, TimeUnit: "ms"},
+		HarnessDef{ID: "H19.1q", Spec: HarnessSpec{Name: "vH_C19_rollup_total2", Pkg: "pkg/metrics", LoopBound: 6, TimeoutS: 240, Par: 4, TimeUnit: "ms"}, ReplayPatches: c19P,
 			What: "Counter.doRollUp (first pass) on two un-rolled entries, arbitrary ordered times and clock: the total is preserved and DeltaBetween of any window <= total", Bounds: "2 entries, times 2020..2100 in ms (millisecond time model)", Outside: "ordering in time: H19.1a (thorough); longer histories; later passes"},
-		HarnessDef{ID: "H19.1a", Tier: "thorough", Spec: HarnessSpec{Name: "vH_C19_rollup_order2", Pkg: "pkg/metrics", LoopBound: 6, TimeoutS: 1500, Par: 4, TimeUnit: "ms"},
+		HarnessDef{ID: "H19.1a", Tier: "thorough", Spec: HarnessSpec{Name: "vH_C19_rollup_order2", Pkg: "pkg/metrics", LoopBound: 6, TimeoutS: 1500, Par: 4, TimeUnit: "ms"}, ReplayPatches: c19P,
 			What:   "Counter.doRollUp (first pass) on two un-rolled entries with arbitrary ordered times and an arbitrary non-decreasing clock at every reading: total preserved, history stays ordered in time, DeltaBetween of any window <= total",
 			Bounds: "2 entries, times 2020..2100 in ms", Outside: "longer histories and later passes (H19.1b when listed)"},
 	)
@@ -417,7 +421,7 @@ func init() {
 		"io.ReadFull": "vStubReadFullLen",
 		"(*github.com/enfein/mieru/v3/pkg/replay.ReplayCache).IsDuplicate": "vStubIsDuplicateAny",
 	}
-	reg("C10", HarnessDef{ID: "H10.2", Spec: HarnessSpec{Name: "vH_C10_stream_hostile_segment", Pkg: "pkg/protocol", LoopBound: 8, LoopBounds: map[string]int{"closeWithError": 1001, "ReadAtLeast": 3}, TimeoutS: 240, Par: 8, Redirects: sess},
+	reg("C10", HarnessDef{ID: "H10.2", ReplayPatches: []SrcPatch{{File: "pkg/protocol/metadata.go", Old: "time.Now()", New: "vNow()", All: true}}, Spec: HarnessSpec{Name: "vH_C10_stream_hostile_segment", Pkg: "pkg/protocol", ClockMin: 1900000000, ClockMax: 1900000001, LoopBound: 8, LoopBounds: map[string]int{"closeWithError": 1001, "ReadAtLeast": 3}, TimeoutS: 240, Par: 8, Redirects: sess},
 		What:   "real StreamUnderlay.readOneSegment/readSessionSegment/readDataAckSegment/Unmarshal of an ESTABLISHED connection (client and server) whose peer holds the credential: every Decrypt is an oracle (fails, or yields ARBITRARY metadata / payload), the stream has any length 0..70000: never a panic; every error carries a type RunEventLoop accepts (it panics on NO_ERROR/UNKNOWN_ERROR); only protocol types 2..11 are passed on; never reads past the stream",
 		Bounds: "one segment; low-entropy data types 10/11 excluded here (their 64-step bit loops are C17's)", Outside: "io.ReadFull replaced by a length-only model (the bytes read are irrelevant under a decrypt oracle); replay cache answer arbitrary; first segment of a server connection (user discovery) is C05/C07"})
 }
@@ -466,7 +470,7 @@ func init() {
 	w := HarnessDef{ID: "H1.1w", Spec: HarnessSpec{Name: "vH_C01_stream_write_len", Pkg: "pkg/protocol", LoopBound: 8, TimeoutS: 240, Par: 6, Redirects: pkW},
 		What:   "TCP framing, write side at length level: two consecutive segments (session or data, payload 0..1024 / 0..32768, every traffic pattern, every padding length) of a client StreamUnderlay through the real writeOneSegment: bytes written = [24-byte nonce, first segment only] + 48 + prefix + payload(+16) + suffix, with the prefix / suffix / payload lengths exactly as recorded in the metadata; the send cipher is derived on the first write; buffers large enough for every encryption",
 		Bounds: "two segments; contents abstract", Outside: "length-level cipher (Encrypt checks the room it is given, writes nothing); newPadding = ANY length 0..maxLen; TCP fragmentation off; content-level round trip: H1.1a/b (thorough)"}
-	r := HarnessDef{ID: "H1.1r", Spec: HarnessSpec{Name: "vH_C01_stream_read_len", Pkg: "pkg/protocol", LoopBound: 8, LoopBounds: map[string]int{"ReadAtLeast": 3}, TimeoutS: 240, Par: 8, Redirects: host},
+	r := HarnessDef{ID: "H1.1r", ReplayPatches: []SrcPatch{{File: "pkg/protocol/metadata.go", Old: "time.Now()", New: "vNow()", All: true}}, Spec: HarnessSpec{Name: "vH_C01_stream_read_len", Pkg: "pkg/protocol", ClockMin: 1900000000, ClockMax: 1900000001, LoopBound: 8, LoopBounds: map[string]int{"ReadAtLeast": 3}, TimeoutS: 240, Par: 8, Redirects: host},
 		What:   "TCP framing, read side: for ARBITRARY authenticated metadata (decrypt oracle) and any stream length 0..70000, a successful readOneSegment consumed exactly 48 + prefix + payload(+16) + suffix bytes and returns a payload of the named length - together with H1.1w the next segment starts where the writer put it, for every padding and payload size",
 		Bounds: "one segment of an established connection, client and server; low-entropy types excluded", Outside: "decrypt oracle; io.ReadFull length-only model; replay cache answer arbitrary"}
 	reg("C01", w, r)
@@ -538,4 +542,23 @@ func init() {
 			"(*bytes.Buffer).Write": "vStubBufWrite", "(*bytes.Buffer).Bytes": "vStubBufBytes"}},
 		What:   "reader + decision + dispatch composed: the real Server.serverServeConn (readRequest -> FindAction -> handler / reject) on an ARBITRARY request byte string (IPv4 form; empty-domain form): the connect / associate handler is reached only for a destination that is not loopback / unspecified / private unless the user holds the permission, and only for SOCKS version 5 - no request the reader accepts can dodge the decision",
 		Bounds: "requests of 10 and 7 bytes, every user state, no egress rules", Outside: "handleRequest / handleForwarding replaced by recorders (they would dial); bytes.Buffer as an append-only slice"})
+}
+
+func init() {
+	r := map[string]string{
+		"github.com/google/btree.NewG":                           "vTreeNew",
+		"(*github.com/google/btree.BTreeG[T]).Len":               "vTreeLen",
+		"(*github.com/google/btree.BTreeG[T]).ReplaceOrInsert":   "vTreeReplaceOrInsert",
+		"(*github.com/google/btree.BTreeG[T]).Min":               "vTreeMin",
+		"(*github.com/google/btree.BTreeG[T]).Max":               "vTreeMax",
+		"(*github.com/google/btree.BTreeG[T]).DeleteMin":         "vTreeDeleteMin",
+		"(*github.com/google/btree.BTreeG[T]).Clear":             "vTreeClear",
+		"(*github.com/google/btree.BTreeG[T]).Ascend":            "vTreeAscend",
+		"(*github.com/enfein/mieru/v3/pkg/protocol.Session).output": "vStubOutput",
+		"github.com/enfein/mieru/v3/pkg/metrics.RegisterMetric":  "vStubRegisterMetric",
+		"(*github.com/enfein/mieru/v3/pkg/protocol.segmentTree).Remaining": "vStubRemainingFull",
+	}
+	reg("C15", HarnessDef{ID: "H15.2", Spec: HarnessSpec{Name: "vH_C15_wait_released_by_close", Pkg: "pkg/protocol", LoopBound: 8, LoopBounds: map[string]int{"closeWithError": 1001, "waitForRecvQueueSpace": 4}, TimeoutS: 120, Par: 2, Redirects: r},
+		What:   "real Session.waitForRecvQueueSpace with the receive queue permanently full and an environment step (another goroutine's Close lands WHILE the waiter is parked): the waiter gives up right after the close instead of polling on - so the input loop, and with it underlay Close / Stop, is released",
+		Bounds: "one waiter, close at its second look at the queue", Outside: "segmentTree.Remaining redirected (always full; closes the session on the second call); real timers; everything else concurrent about Close"})
 }
